@@ -31,7 +31,7 @@ Route(S) == PidOf(S.in.fw.pid)
 Dst(S)   == <<PidOf(S.in.fw.pid), CpOf(S.in.fw)>>
 \* (total: a recipient spelling the specification holds invalid - which the code should have refused -
 \* names no tracked account; its delta counts as 0 and conservation then fails, as it should)
-Delta(S, a, d) == IF a \in Acct THEN S.post.bal[a][d] - S.pre.bal[a][d] ELSE 0
+Delta(S, a, d) == IF a \in Acct /\ d \in Denom THEN S.post.bal[a][d] - S.pre.bal[a][d] ELSE 0
 Burn(S, d) == S.pre.supply[d] - S.post.supply[d]
 
 HasSwap(S) == \E i \in DOMAIN S.in.acts : ActOf(S.in.acts[i].id) = "SWAP"
@@ -129,7 +129,7 @@ TheFee(S) == S.in.acts[CHOOSE i \in FeeActs(S) : TRUE]
 CreditsOf(AA, fs) == [r \in Acct |-> SumSeq([j \in DOMAIN fs |->
                          IF RcptAcct(fs[j].to) = r /\ FeeOf(AA, fs[j]) > 0 THEN FeeOf(AA, fs[j]) ELSE 0])]
 CleanEnv(s) == ~s.env.ftfPaused /\ s.env.blocked = {} /\ ~s.env.cctpPaused
-Prop_C04(S) == HasFee(S) /\ AmtKind(S.in) = "num" =>
+Prop_C04(S) == HasFee(S) /\ AmtKind(S.in) = "num" /\ S.in.base \in Denom =>
   LET fs == TheFee(S).fees IN
   /\ ~S.panic                                   \* refused means an error acknowledgement, not an abort
   /\ (TheFee(S).at = "FEE" /\ FeeRefused(A(S), fs) => ~S.ok)
